@@ -7,6 +7,7 @@ import (
 	"errors"
 	"fmt"
 	"net/http"
+	"os"
 	"sort"
 	"strings"
 	"sync"
@@ -119,6 +120,21 @@ var opAlphabet = []string{
 	`{user(id: "u3") {friends {greeting(times: 3)}}}`,
 	`{me {friends {reviews {body}} favorite {title}}}`, // u2,u1 through another path + Product entity
 	`{me {friends {reviews {stars}}}}`,                 // (u2,u1): covered by the keys of the users batch; u2 is a null entity in sg1
+	// one operation text, an argument variable that is undefined (the argument's
+	// default applies at the subgraph) / explicitly null / set: three different
+	// subgraph requests for the same entities ("query§variables")
+	// (on a batch that can be served completely from the cache)
+	`query Q($s: Style) {user(id: "u3") {friends {greeting(style: $s)}}}§{}`,
+	`query Q($s: Style) {user(id: "u3") {friends {greeting(style: $s)}}}§{"s":null}`,
+	`query Q($s: Style) {user(id: "u3") {friends {greeting(style: $s)}}}§{"s":"LOUD"}`,
+}
+
+// splitOp splits an alphabet entry into operation text and variables.
+func splitOp(entry string) (string, []byte) {
+	if i := strings.Index(entry, "§"); i >= 0 {
+		return entry[:i], []byte(entry[i+len("§"):])
+	}
+	return entry, nil
 }
 
 func layout(s *fedlab.Supergraph) *fedlab.Layout {
@@ -265,11 +281,18 @@ func runHistory(ls *labs, hist []step, fault string, faultAt int) (string, []fai
 		nsets := len(cache.sets)
 		hits0 := cache.hits
 		opt := engine.VerifWithResponseCache(cache, defaultTTL, func(err error) { cacheErrs = append(cacheErrs, err.Error()) })
-		got, reqs, err := ls.with.Exec(q, "", nil, opt)
-		want, reqs0, err0 := ls.without.Exec(q, "", nil)
+		qt, qv := splitOp(q)
+		got, reqs, err := ls.with.Exec(qt, "", qv, opt)
+		want, reqs0, err0 := ls.without.Exec(qt, "", qv)
 		if (err != nil) != (err0 != nil) {
 			fails = append(fails, fail{"cache failures never fail a request / caching is transparent", "engine error differs", fmt.Sprintf("step %d %s: with cache err=%v, without err=%v", i, q, err, err0)})
 			continue
+		}
+		if os.Getenv("VERIF_C16_DUMP") != "" { // development aid
+			fmt.Printf("step %d %s\n  with cache:    %s\n  without cache: %s\n", i, q, got, want)
+			for _, r := range reqs {
+				fmt.Printf("    -> %s %s\n", r.Host, r.RawBody)
+			}
 		}
 		gc, e1 := canonResp(got)
 		wc, e2 := canonResp(want)
